@@ -25,10 +25,11 @@ RULE = (
     "converter, read_* through a temp file, generator, copy/pickle/deepcopy, relabelling, dual, <<, subhypergraph copy, "
     "cleanup, ...) produces the network the additions are applied to. Around every addition: every old ID keeps its "
     "members and attributes, the number of new IDs is what the reference model adds, an existing explicit ID warns and "
+    "A third of the cases go straight from the builder to 1-6 plain additions with automatic IDs. "
     "changes nothing, integrity holds. non-trivial = the built network has an int-like ID equal to 0 or >= its number of "
     "edges and >=2 additions with automatic IDs returned; distinct = distinct canonical JSON"
 )
-BUDGET = {"quick": 3200, "thorough": 120000}
+BUDGET = {"quick": 6400, "thorough": 120000}
 ASSUMPTIONS = [
     "the expected number of new IDs per call comes from the C05 reference models (hops/dhops/scops.Model)",
     "a builder that raises on the drawn base network is counted (class 'builder-raised:<name>') and not judged here",
@@ -349,10 +350,11 @@ def cases(draw, tier):
         op = dhops.op_strategy(kind, none_p=True, only=DH_ADD)
     else:
         op = scops.op_strategy(kind, none_p=True, unique_bulk=True, only=SC_ADD)
-    ops = draw(st.one_of(st.lists(op, min_size=1, max_size=4), st.lists(op, min_size=4, max_size=n)))
+    # a third of the cases go straight from the builder to the plain additions (nothing in between that could repair a counter)
+    ops = draw(st.one_of(st.just([]), st.lists(op, min_size=1, max_size=4), st.lists(op, min_size=4, max_size=n)))
     # the core scenario: after whatever happened, a few plain additions with automatic IDs
     alph = nets.NODE_KINDS[kind]
-    for _ in range(draw(st.integers(0, 4))):
+    for _ in range(draw(st.integers(1, 6))):
         m = draw(st.lists(st.sampled_from(alph), min_size=1, max_size=3, unique=True))
         if outcls == "H":
             ops.append(["add_edge", m, "list", None, {}])
